@@ -140,7 +140,7 @@ def run(ctx: Any, prog: Program) -> None:
     ctx.check('C13.Z2', hdr in rf and (hdr in wf), vpk, wd, f'directory header: reader formats {rf}, writer formats {wf}; both must use <III (signature, version, tree length)', func='VPK.write_dirfile', text='header format')
     ctx.check('C13.Z2', ent in rf and ent in wf, vpk, wd, f'directory entry: reader formats {rf}, writer formats {wf}; both must use the same 18-byte record', func='VPK.write_dirfile', text='entry format')
     # the tree length patched afterwards is one <I at offset calcsize('<II')
-    ok = expand('<I') in wf and any(isinstance(c, ast.Call) and dotted(c.func) == 'file.seek' and U(c.args[0]) == "struct.calcsize('<II')" for c in walk_no_nested(wd))
+    ok = expand('<I') in wf and any(isinstance(c, ast.Call) and isinstance(c.func, ast.Attribute) and c.func.attr == 'seek' and isinstance(c.func.value, ast.Name) and c.args and U(c.args[0]) == "struct.calcsize('<II')" for c in walk_no_nested(wd))
     ctx.shape('C13.Z2', ok, vpk, wd, 'the tree length must be patched into the third header field (seek to calcsize("<II"), pack "<I")', func='VPK.write_dirfile', text='tree length patch')
     # entry linkage
     r_ent = next((a for a in ra if a.fmts and expand(a.fmts[0]) == ent), None)
@@ -162,12 +162,12 @@ def run(ctx: Any, prog: Program) -> None:
     # locals derived in the writer: arch_ind from info.arch_index
     w_alias: Dict[str, str] = {}
     for n in walk_no_nested(wd):
-        if isinstance(n, ast.Assign) and isinstance(n.targets[0], ast.Name) and isinstance(n.value, ast.Attribute) and dotted(n.value.value) == 'info':
+        if isinstance(n, ast.Assign) and isinstance(n.targets[0], ast.Name) and isinstance(n.value, ast.Attribute) and isinstance(n.value.value, ast.Name) and n.value.value.id not in ('self', 'cls'):
             w_alias[n.targets[0].id] = n.value.attr
     for i, (rn, wsrc) in enumerate(zip(r_ent.names, w_ent.names)):
         rfield = r_field.get(rn, None)
         wnode = ast.parse(wsrc, mode='eval').body
-        wfields = [a.attr for a in ast.walk(wnode) if isinstance(a, ast.Attribute) and dotted(a.value) == 'info']
+        wfields = [a.attr for a in ast.walk(wnode) if isinstance(a, ast.Attribute) and isinstance(a.value, ast.Name) and a.value.id not in ('self', 'cls')]
         if isinstance(wnode, ast.Name) and wnode.id in w_alias:
             wfields = [w_alias[wnode.id]]
         if i == 5:
@@ -193,7 +193,9 @@ def run(ctx: Any, prog: Program) -> None:
     term = [n for n in walk_no_nested(ld) if isinstance(n, ast.If) and _is_term_test(n.test) and any(isinstance(x, ast.Raise) for x in n.body)]
     ctx.shape('C13.Z2', len(term) == 1, vpk, term[0] if term else ld, 'the reader must reject an entry whose terminator is not 0xffff', func='VPK.load_dirfile', text='terminator checked')
     dai = fold.global_('DIR_ARCH_INDEX')
-    r_map = any(isinstance(n, ast.If) and U(n.test) == 'arch_ind == DIR_ARCH_INDEX' and U(n.body[0]) == 'arch_ind = None' for n in walk_no_nested(ld))
+    r_map = any(isinstance(n, ast.If) and isinstance(n.test, ast.Compare) and len(n.test.ops) == 1 and isinstance(n.test.ops[0], ast.Eq) and isinstance(n.test.left, ast.Name)
+                and dotted(n.test.comparators[0]) == 'DIR_ARCH_INDEX' and isinstance(n.body[0], ast.Assign) and dotted(n.body[0].targets[0]) == n.test.left.id
+                and isinstance(n.body[0].value, ast.Constant) and n.body[0].value.value is None for n in walk_no_nested(ld))
     w_map = any(isinstance(n, ast.If) and U(n.test) == 'info.arch_index is None' and U(n.body[0]) == 'arch_ind = DIR_ARCH_INDEX' for n in walk_no_nested(wd))
     ctx.shape('C13.Z2', r_map and w_map and isinstance(dai, int) and dai <= 0xffff, vpk, wd, 'None <-> DIR_ARCH_INDEX must be mapped in both directions and fit the 16-bit field', func='VPK.write_dirfile', text='dir archive index mapping')
     # nesting: three nested loops on both sides, one terminator per level
@@ -211,7 +213,8 @@ def run(ctx: Any, prog: Program) -> None:
         rec(fn, 0)
         return best
     ctx.check('C13.Z2', loop_depth(ld) == 3 and loop_depth(wd) == 3, vpk, wd, 'the tree is extension / folder / file: three nested loops on both sides', func='VPK.write_dirfile', text='three-level nesting')
-    terms = [c for c in walk_no_nested(wd) if isinstance(c, ast.Call) and dotted(c.func) == 'file.write' and isinstance(c.args[0], ast.Constant) and c.args[0].value == b'\x00']
+    terms = [c for c in walk_no_nested(wd) if isinstance(c, ast.Call) and isinstance(c.func, ast.Attribute) and c.func.attr == 'write' and isinstance(c.func.value, ast.Name) and c.args
+             and isinstance(c.args[0], ast.Constant) and c.args[0].value == b'\x00']
     ctx.check('C13.Z2', len(terms) == 3, vpk, wd, f'one empty-string terminator per nesting level is required (found {len(terms)})', func='VPK.write_dirfile', text='level terminators')
     wn = vpk.func('_write_nullstring')
     rn_ = vpk.func('iter_nullstr')
@@ -448,8 +451,11 @@ def run(ctx: Any, prog: Program) -> None:
     # the three spellings must give one decomposition: the 3-tuple form names the extension explicitly (the part after the LAST
     # dot, which is also how the directory tree groups files), so the string and 2-tuple forms have to split at the last dot too
     gfp = vpk.func('_get_file_parts')
+    # the name part is the middle element of the returned (path, name, ext) triple
+    ret3 = [r.value for r in walk_no_nested(gfp) if isinstance(r, ast.Return) and isinstance(r.value, ast.Tuple) and len(r.value.elts) == 3 and isinstance(r.value.elts[1], ast.Name)]
+    fname_var = ret3[0].elts[1].id if ret3 else 'filename'
     splits = [c for c in walk_no_nested(gfp) if isinstance(c, ast.Call) and isinstance(c.func, ast.Attribute) and c.func.attr in ('rsplit', 'split', 'partition', 'rpartition')
-              and dotted(c.func.value) == 'filename' and c.args and isinstance(c.args[0], ast.Constant) and c.args[0].value == '.']
+              and dotted(c.func.value) == fname_var and c.args and isinstance(c.args[0], ast.Constant) and c.args[0].value == '.']
     splitext = [c for c in walk_no_nested(gfp) if isinstance(c, ast.Call) and dotted(c.func) == 'os.path.splitext']
     if len(splits) + len(splitext) != 1:
         raise AnalysisError('_get_file_parts: the extension split was not found')
